@@ -249,11 +249,22 @@ Proof.
   rewrite run_refines_spec. unfold finding_code.
   destruct (eq_listZ (enc_obs (spec_run faithful i)) (enc_obs (spec_run ideal i))) eqn:E0.
   - left. apply prop_code_spec. apply eq_listZ_spec in E0. exact E0.
-  - right. destruct (eq_listZ _ (enc_obs (spec_run (mkMode true false) i))); [discriminate|].
-    destruct (eq_listZ _ (enc_obs (spec_run (mkMode false true) i))); [discriminate|].
+  - right.
     replace (eq_listZ (enc_obs (spec_run faithful i)) (enc_obs (spec_run faithful i))) with true
       by (symmetry; apply eq_listZ_spec; reflexivity).
-    discriminate.
+    cbn [negb].
+    destruct (eq_listZ _ (enc_obs (spec_run (mkMode true false) i))); [discriminate|].
+    destruct (eq_listZ _ (enc_obs (spec_run (mkMode false true) i))); discriminate.
+Qed.
+
+(* a non-zero signature is only ever given to an observable that is the faithful model's own *)
+Theorem finding_code_requires_model i obs :
+  finding_code i obs <> 0 -> obs = enc_obs (run faithful i).
+Proof.
+  rewrite run_refines_spec. unfold finding_code.
+  destruct (eq_listZ obs (enc_obs (spec_run ideal i))); [congruence|].
+  destruct (eq_listZ obs (enc_obs (spec_run faithful i))) eqn:E; [|simpl; congruence].
+  intros _. apply eq_listZ_spec. exact E.
 Qed.
 
 (* ---------- the specification, field by field ---------- *)
